@@ -78,8 +78,14 @@ pub struct Stats {
     pub trace: u64,
     /// (hash of previous op kind, its outcome) for the 3-gram measure
     pub prev: (u64, bool),
+    /// the property being decided (None outside a property check): worlds that serve several properties skip the pure
+    /// observation clauses of the other properties, so that such a clause cannot mask a later clause of this one
+    pub focus: Option<String>,
 }
 impl Stats {
+    pub fn focused(prop: &str) -> Stats {
+        Stats { focus: Some(prop.to_string()), ..Default::default() }
+    }
     fn mix(&mut self, x: u64) {
         self.trace = (self.trace ^ x).wrapping_mul(0x100000001b3).rotate_left(17);
     }
@@ -178,6 +184,31 @@ pub trait Check: Sync {
     fn property_of(&self, _check: &str) -> Vec<&'static str> {
         vec![]
     }
+    /// A pure observation clause (one that does not steer the model) was found violated. If it belongs to the property
+    /// being decided it ends the run at once; otherwise it is parked, the remaining observation clauses of the same step
+    /// are still evaluated (one of them may belong to the property being decided — without this, the clause that happens
+    /// to be evaluated first would mask it), and the world returns the parked violation at the end of the step or
+    /// before any outcome clause.
+    fn clause(&self, st: &Stats, parked: &mut Option<Violation>, v: Violation) -> Result<(), Violation> {
+        if self.wants(st, &v.check) {
+            Err(v)
+        } else {
+            if parked.is_none() {
+                *parked = Some(v);
+            }
+            Ok(())
+        }
+    }
+    /// is this (pure observation) clause to be evaluated in a run that decides `st.focus`?
+    fn wants(&self, st: &Stats, check: &str) -> bool {
+        match &st.focus {
+            None => true,
+            Some(p) => {
+                let o = self.property_of(check);
+                o.is_empty() || o.iter().any(|x| x == p)
+            }
+        }
+    }
     /// Mempool faults (applied by the core after generation, recorded in the trace, so replay is unaffected):
     /// may this step be delivered twice in a row (re-submitted with a fresh signature)? Default: never.
     fn dup_ok(&self, _s: &Self::Step) -> bool {
@@ -237,7 +268,7 @@ fn guarded<C: Check>(c: &C, cfg: &C::Cfg, steps: &[C::Step], stats: &mut Stats) 
     }
 }
 
-pub fn shrink<C: Check>(c: &C, cfg: &C::Cfg, mut steps: Vec<C::Step>, v: &Violation) -> (Vec<C::Step>, Violation) {
+pub fn shrink<C: Check>(c: &C, prop: &str, cfg: &C::Cfg, mut steps: Vec<C::Step>, v: &Violation) -> (Vec<C::Step>, Violation) {
     let mut best = v.clone();
     let mut budget = 4000usize;
     let mut same = |st: &[C::Step], budget: &mut usize| -> Option<Violation> {
@@ -245,7 +276,7 @@ pub fn shrink<C: Check>(c: &C, cfg: &C::Cfg, mut steps: Vec<C::Step>, v: &Violat
             return None;
         }
         *budget -= 1;
-        let mut s = Stats::default();
+        let mut s = Stats::focused(prop);
         match guarded(c, cfg, st, &mut s) {
             // same violation class = same oracle clause; the operation kind at which it shows may change while shrinking
             Err(v2) if v2.check == v.check => Some(v2),
@@ -479,7 +510,7 @@ pub fn run_world<C: Check>(c: &C, prop: &str, tier: Tier, seed: u64, out_dir: &s
                     };
                     let (steps, mp) = mempool(c, &mut rng, steps);
                     let (steps, jumps) = clock_faults(c, &mut rng, steps);
-                    let mut st = Stats::default();
+                    let mut st = if prop.starts_with('C') { Stats::focused(prop) } else { Stats::default() };
                     let r = guarded(c, &cfg, &steps, &mut st);
                     st.add("fault.mempool_duplicate_delivery", mp[0]);
                     st.add("fault.mempool_lost_tx", mp[1]);
@@ -534,12 +565,12 @@ pub fn run_world<C: Check>(c: &C, prop: &str, tier: Tier, seed: u64, out_dir: &s
     for (sig, (run, cfg, steps, v)) in viols {
         let n0 = steps.len();
         let (min, v2) = if shrunk < 12 {
-            shrink(c, &cfg, steps, &v)
+            shrink(c, prop, &cfg, steps, &v)
         } else {
             // beyond a dozen distinct signatures per world only the tail after the violating step is cut
             let cut = (v.step + 1).min(steps.len());
             let cand = steps[..cut].to_vec();
-            let mut tmp = Stats::default();
+            let mut tmp = Stats::focused(prop);
             match guarded(c, &cfg, &cand, &mut tmp) {
                 Err(v2) if v2.check == v.check => (cand, v2),
                 _ => (steps, v),
@@ -691,7 +722,7 @@ pub fn run_property(prop: &str, tier: Tier, seed: u64, out_dir: &str, worlds: &[
 pub fn replay_file<C: Check>(c: &C, path: &str) -> i32 {
     let txt = std::fs::read_to_string(path).expect("replay file");
     let r: Replay<C::Cfg, C::Step> = serde_json::from_str(&txt).expect("replay json");
-    let mut st = Stats::default();
+    let mut st = if r.property.starts_with('C') { Stats::focused(&r.property) } else { Stats::default() };
     match guarded(c, &r.cfg, &r.steps, &mut st) {
         Err(v) => {
             println!("VIOLATION property={} replay={}", r.property, path);
